@@ -35,6 +35,7 @@ import (
 	"github.com/attestantio/go-eth2-client/spec/bellatrix"
 	eth2p0 "github.com/attestantio/go-eth2-client/spec/phase0"
 	k1 "github.com/decred/dcrd/dcrec/secp256k1/v4"
+	"github.com/herumi/bls-eth-go-binary/bls"
 
 	"github.com/obolnetwork/charon/app/k1util"
 	"github.com/obolnetwork/charon/cluster"
@@ -222,6 +223,15 @@ func (r *run) createCluster() error {
 	return root.ExecuteContext(ctx)
 }
 
+func hasInt(l []int, x int) bool {
+	for _, y := range l {
+		if y == x {
+			return true
+		}
+	}
+	return false
+}
+
 func (r *run) createForT() (err error) {
 	defer func() {
 		if p := recover(); p != nil {
@@ -331,6 +341,72 @@ func (r *run) createForT() (err error) {
 		}
 		shares[0][idx] = sk
 		lock.Validators[0].PubShares[idx] = pk[:]
+	case "twopoly":
+		// validator 0's shares on two polynomials p and q = p + c*x*prod_{a in A}(x - a), |A| = t-2: q(0) = p(0), q = p on
+		// A; the shares of B (non-empty, not everything outside A) move to q, the others stay on p.  Every share is then on
+		// a polynomial of degree t-1 through the validator's key, but the shares are not all on ONE.
+		var all []int
+		for i := 1; i <= c.N; i++ {
+			all = append(all, i)
+		}
+		var a []int
+		switch r.rng.Intn(4) {
+		case 0: // the indices common to the first t and the last t shares, padded from the front
+			for i := c.N - c.T + 1; i <= c.T && len(a) < c.T-2; i++ {
+				a = append(a, i)
+			}
+			for i := 1; len(a) < c.T-2; i++ {
+				if !hasInt(a, i) {
+					a = append(a, i)
+				}
+			}
+		case 1: // the first t-2
+			a = append(a, all[:c.T-2]...)
+		default:
+			perm := r.rng.Perm(c.N)
+			for _, k := range perm[:c.T-2] {
+				a = append(a, k+1)
+			}
+		}
+		var rest []int
+		for _, i := range all {
+			if !hasInt(a, i) {
+				rest = append(rest, i)
+			}
+		}
+		var b []int
+		if r.rng.Intn(2) == 0 { // the trailing ones
+			b = append(b, rest[1+r.rng.Intn(len(rest)-1):]...)
+		} else {
+			perm := r.rng.Perm(len(rest))
+			for _, k := range perm[:1+r.rng.Intn(len(rest)-1)] {
+				b = append(b, rest[k])
+			}
+		}
+		var cf bls.Fr
+		cf.SetByCSPRNG()
+		for _, x := range b {
+			var d, f bls.Fr
+			f.SetInt64(int64(x))
+			bls.FrMul(&d, &cf, &f)
+			for _, ai := range a {
+				f.SetInt64(int64(x - ai))
+				bls.FrMul(&d, &d, &f)
+			}
+			var sk bls.SecretKey
+			if err := sk.Deserialize(shares[0][x-1][:]); err != nil {
+				return err
+			}
+			fr := bls.CastFromSecretKey(&sk)
+			bls.FrAdd(fr, fr, &d)
+			nsk := tbls.PrivateKey(sk.Serialize())
+			pk, err := tbls.SecretToPublicKey(nsk)
+			if err != nil {
+				return err
+			}
+			shares[0][x-1] = nsk
+			lock.Validators[0].PubShares[x-1] = pk[:]
+		}
 	case "opsig":
 		o := lock.Definition.Operators
 		o[0].ConfigSignature, o[1].ConfigSignature = o[1].ConfigSignature, o[0].ConfigSignature
